@@ -21,7 +21,7 @@ cp /tmp/seed_$ID.diff /verif/seeded/$NAME/patch.diff
 cp $WT/_seed/demo.py /verif/seeded/$NAME/demo.py
 cp $WT/_seed/meta.json /verif/seeded/$NAME/meta.agent.json 2>/dev/null
 echo "== checks against the change (scratch copy of /repo + patch, VERIF_REPO; /repo itself stays untouched)"
-COPY=/scratch/seedcopy_$NAME_$$
+COPY=/scratch/seedcopy_${NAME}_$$
 rm -rf $COPY; mkdir -p /scratch; rsync -a --exclude .git --exclude __pycache__ /repo/ $COPY/
 (cd $COPY && patch -p1 -s < /verif/seeded/$NAME/patch.diff) || { echo "PATCH DOES NOT APPLY"; rm -rf $COPY; exit 2; }
 for P in $PROPS; do
